@@ -2,6 +2,7 @@
 import json
 import os
 
+import common
 import engine_tree as ET
 import gen_tree as GT
 from sx import run_model
@@ -905,6 +906,59 @@ def c06(ctx):
     ctx.cov['engines']['tree:faults-update'].update(runs_ending_with_the_injected_error=hit2, runs_that_wrote_without_save=wrote)
     cli_unreadable_outer(ctx)
     transient_faults(ctx)
+    open_refused(ctx)
+
+
+def open_refused(ctx):
+    """open() of a listed regular file is refused with an errno that usually means "not a thing one opens" (ENXIO, EOPNOTSUPP - a file
+    on an odd filesystem, a device node that stat() takes for regular) or with any other errno: whatever gemato makes of it, the
+    verification of a directory that contains the file never reports success (judged on the implementation alone; the model treats these
+    two errnos as "exists, not opened" only for sockets)"""
+    r = ctx.rng('c06refused')
+    st = {'runs': 0, 'fault_fired': 0, 'not_success': 0, 'by_errno': {}}
+    with ET.Scratch() as sc:
+        for _ in range(150 if ctx.tier == 'quick' else 1500):
+            c = GT.Case()
+            t, files, written = GT.build_consistent(r, c, nfiles=r.randint(2, 7), allow_multi=False)
+            c.meta['order_seed'] = r.randint(0, 3)
+            listed = [p for p in sorted(files) if not any(x.startswith('.') for x in p.split('/')) and p not in c.meta.get('ignored', [])
+                      and not any(p == g or p.startswith(g + '/') for g in c.meta.get('ignored', []))]
+            if not listed or t.link_paths():
+                continue
+            p = r.choice(listed)
+            i = t.lookup(p)
+            en = r.choice(['ENXIO', 'EOPNOTSUPP', 'ENXIO', 'EOPNOTSUPP', 'ENODEV', 'EBUSY', 'ETXTBSY'])
+            d = os.path.dirname(p)
+            start = r.choice(['', d, d.split('/')[0]])
+            # (no last_mtime: a file that is not newer and has its recorded size is legitimately skipped without being opened for reading)
+            op = ['verify', start, r.choice([0, 0, 1]), []]
+            b, s = sc.fresh()
+            try:
+                paths = t.realise(b, s)
+                if i not in paths:
+                    continue
+                stt = os.stat(paths[i])
+                try:
+                    with common.watchdog(30):
+                        out = ET.run_impl(b, 'Manifest', (None, False, None, None, 'default', None, None, False), False, True, [op],
+                                          GT.order_key_for(c.meta['order_seed']), [('open', (stt.st_dev, stt.st_ino), en)])
+                except common.CaseTimeout:
+                    out = ['err', ['DidNotTerminate']]
+                fired = ET.FaultInjector.fired
+            finally:
+                sc.cleanup(b, s)
+            st['runs'] += 1
+            if not fired:
+                continue
+            st['fault_fired'] += 1
+            st['by_errno'][en] = st['by_errno'].get(en, 0) + 1
+            success = out[0] == 'ok' and out[1] and out[1][0][0] == 'ok' and out[1][0][1][0] == 1 and not out[1][0][1][1]
+            if success:
+                ctx.violation('spec', f'open() of the listed file {p} fails with {en}, yet the verification of {start or "<top>"} reported success',
+                              {'meta': {k: v for k, v in c.meta.items() if k != 'paths'}, 'op': op, 'fault': ['open', p, en], 'impl': out, 'tree': describe(t)})
+            else:
+                st['not_success'] += 1
+    ctx.count('tree:open-refused', st['runs'], st['runs'], dist=st)
 
 
 def transient_faults(ctx):
